@@ -8,9 +8,9 @@ set -u
 P=$1; shift; OWN=$1
 cd /repo || exit 2
 [ -z "$(git status --porcelain)" ] || { echo "/repo not clean"; exit 2; }
-git apply "$P" 2>/dev/null || git apply --3way "$P" >/dev/null 2>&1 || { echo "patch does not apply"; exit 2; }
+git apply "$P" 2>/dev/null || { git apply --3way "$P" >/dev/null 2>&1 && [ -z "$(git diff --name-only --diff-filter=U)" ]; } || { git reset -q --hard HEAD; echo "patch does not apply"; exit 2; }
 git reset -q 2>/dev/null
-trap 'git -C /repo checkout -q -- . ' EXIT
+trap 'git -C /repo reset -q --hard HEAD' EXIT
 if [ -d /tmp/mut/simsnap ]; then export VERIF_SIM_DIR=/tmp/mut/simsnap VERIF_TARGET_DIR=/tmp/mut/simsnap-target; fi
 export VERIF_NO_EVIDENCE=1
 for id in "$@"; do
